@@ -64,9 +64,15 @@ def case_strategy(draw):
             regs.append(['new', draw(IDX), draw(reguniv.reg_key_biased()),
                          draw(IDX), draw(st.sampled_from(NAMES + [''])),
                          draw(st.booleans())])
+    # the 5th element: subscribe the factory of an earlier subscription
+    # again (the same object, under the same or another key or registry) -
+    # subscribers() calls it once per listing (seed C08f); 6th: keep that
+    # subscription's key
     subs = [[draw(IDX), draw(reguniv.reg_key_biased()),
-             draw(st.one_of(st.none(), IDX, IDX)), draw(st.booleans())]
-            for _ in range(draw(st.integers(0, 5)))]
+             draw(st.one_of(st.none(), IDX, IDX)), draw(st.booleans()),
+             draw(st.one_of(st.none(), st.none(), IDX)),
+             draw(st.sampled_from(['key', 'req', 'other']))]
+            for _ in range(draw(st.integers(0, 6)))]
     probes = []
     for _ in range(draw(st.integers(1, 5))):
         key = draw(key_strategy())
@@ -143,13 +149,24 @@ def run_case(case, cfg, out):
         U.regs[r].register(req, prov, name, v)
         M.register(r, req, prov, name, v)
         made.append((r, req, prov, name))
-    for r, reqrefs, p, rn in case['subs']:
+    submade = []
+    for sub in case['subs']:
+        r, reqrefs, p, rn = sub[:4]
+        again, keep = (sub[4], sub[5]) if len(sub) > 4 else (None, 'other')
         r = r % len(U.regs)
         req = [U.spec(ref) for ref in reqrefs]
         prov = None if p is None else U.prov(p)
         v = newfactory(rn)
+        if again is not None and submade:
+            r0, req0, prov0, v = submade[again % len(submade)]
+            if keep == 'key':
+                req, prov = req0, prov0
+            elif keep == 'req':
+                req = req0
+            out.tag('factory_subscribed_again')
         U.regs[r].subscribe(req, prov, v)
         M.subscribe(r, req, prov, v)
+        submade.append((r, req, prov, v))
 
     def resolve_obj(ref):
         if ref[0] == 'x':
